@@ -250,7 +250,7 @@ class NIC(IPWiredNetworkInterface):
                 if frame.ip.dst_ip_address in {self.ip_address, self.ip_network.broadcast_address}:
                     accept_frame = True
             else:
-                if frame.ethernet.dst_mac_addr == self.mac_address:
+                if frame.ethernet.dst_mac_addr == self.mac_address and frame.ip.dst_ip_address == self.ip_address:
                     accept_frame = True
 
             if accept_frame:
